@@ -42,6 +42,7 @@ type Oblig struct {
 	AltHyps []*Term
 	AltGoal *Term
 	altSMT  string
+	linSMT  string
 	// filled by solver
 	SMT      string
 	Result   string
@@ -264,6 +265,27 @@ func (e *Engine) emit(s *State, kind, site string, goal *Term, pos token.Pos, sr
 	if site != "" {
 		name += "@" + site
 	}
+	// a conjunction with quantified conjuncts is proved conjunct by conjunct (each is skolemised on its own)
+	if goal.Op == "and" {
+		quant := false
+		for _, a := range goal.Args {
+			if a.Op == "forall" {
+				quant = true
+			}
+		}
+		if quant && len(goal.Args) <= 12 {
+			for _, a := range goal.Args {
+				e.emitOne(s, name, kind, a, pos, src)
+			}
+			s.assumeGoal(goal)
+			return
+		}
+	}
+	e.emitOne(s, name, kind, goal, pos, src)
+	s.assumeGoal(goal)
+}
+
+func (e *Engine) emitOne(s *State, name, kind string, goal *Term, pos token.Pos, src string) {
 	parts, at := splitRangeGoal(goal)
 	for k, g := range parts {
 		hyps := append([]*Term(nil), s.pc...)
@@ -283,7 +305,6 @@ func (e *Engine) emit(s *State, kind, site string, goal *Term, pos token.Pos, sr
 		}
 		e.obligs = append(e.obligs, ob)
 	}
-	s.assumeGoal(goal)
 }
 
 func funcKey(fn *ssa.Function) string {
